@@ -1,1 +1,608 @@
-fn main() {}
+//! C07 — instruction-trace monitor for the signature comparison (ptrace single-stepping).
+//!
+//! This binary defines its own byte-wise, early-exit `memcmp`/`bcmp` (volatile loads), which the link resolves in
+//! preference to libc's vectorised ones: a comparison built on `==`/`memcmp` then shows up as an instruction trace
+//! whose length depends on the position of the first differing byte. The override lives only in this binary.
+
+use std::io::Write;
+use sv::exec::{build_request, Prov};
+use sv::gen::{gen_cfg, gen_logical, make_case, GenOpts, Overrides, Speller};
+use sv::json::J;
+use sv::model::Case;
+use sv::prng::Rng;
+use sv::rm::decide::Carrier;
+use sv::run::{finish, Ctx, Report, Tally, Tier, Violation};
+
+#[no_mangle]
+pub unsafe extern "C" fn memcmp(a: *const u8, b: *const u8, n: usize) -> i32 {
+    let mut i = 0;
+    while i < n {
+        let x = std::ptr::read_volatile(a.add(i));
+        let y = std::ptr::read_volatile(b.add(i));
+        if x != y {
+            return x as i32 - y as i32;
+        }
+        i += 1;
+    }
+    0
+}
+
+#[no_mangle]
+pub unsafe extern "C" fn bcmp(a: *const u8, b: *const u8, n: usize) -> i32 {
+    let mut i = 0;
+    while i < n {
+        let x = std::ptr::read_volatile(a.add(i));
+        let y = std::ptr::read_volatile(b.add(i));
+        if x != y {
+            return 1;
+        }
+        i += 1;
+    }
+    0
+}
+
+#[derive(Clone, Copy, Debug, PartialEq, Eq)]
+#[repr(C)]
+struct Trace {
+    steps: u64,
+    hash: u64,
+    ok: u64,
+}
+
+const RIP_OFFSET: usize = 16 * 8;
+
+/// What the child does between the two stops.
+#[derive(Clone, Copy, PartialEq, Eq, Debug)]
+enum Mode {
+    /// the real validation
+    Validate,
+    /// harness-local early-exit comparison of the presented and the expected signature (sensitivity control)
+    ControlCompare,
+}
+
+#[inline(never)]
+fn control_compare(a: &[u8], b: &[u8]) -> bool {
+    std::hint::black_box(a) == std::hint::black_box(b)
+}
+
+/// Run in the forked child: everything up to the first stop is set-up and not traced.
+fn child_body(case: &Case, expected_sig: &str, presented: &str, mode: Mode) -> ! {
+    unsafe {
+        let req = build_request(&case.wire);
+        let mut prov = Prov::new(case.script.clone());
+        let a = presented.as_bytes().to_vec();
+        let b = expected_sig.as_bytes().to_vec();
+        libc::ptrace(libc::PTRACE_TRACEME, 0, 0, 0);
+        libc::raise(libc::SIGSTOP);
+        let code = match mode {
+            Mode::Validate => match req {
+                Ok(r) => {
+                    let rec = sv::exec::execute_built(r, case, &mut prov);
+                    if rec {
+                        10
+                    } else {
+                        11
+                    }
+                }
+                Err(_) => 12,
+            },
+            Mode::ControlCompare => {
+                if control_compare(&a, &b) {
+                    10
+                } else {
+                    11
+                }
+            }
+        };
+        libc::raise(libc::SIGSTOP);
+        libc::_exit(code);
+    }
+}
+
+/// Fork a child for this probe and single-step it between its two SIGSTOPs.
+fn trace_one(case: &Case, expected_sig: &str, presented: &str, mode: Mode) -> Trace {
+    unsafe {
+        let pid = libc::fork();
+        if pid < 0 {
+            return Trace {
+                steps: 0,
+                hash: 0,
+                ok: 0,
+            };
+        }
+        if pid == 0 {
+            child_body(case, expected_sig, presented, mode);
+        }
+        let mut status: i32 = 0;
+        // first stop
+        if libc::waitpid(pid, &mut status, 0) != pid || !libc::WIFSTOPPED(status) {
+            libc::kill(pid, libc::SIGKILL);
+            libc::waitpid(pid, &mut status, 0);
+            return Trace {
+                steps: 0,
+                hash: 0,
+                ok: 0,
+            };
+        }
+        let mut steps: u64 = 0;
+        let mut hash: u64 = 0xcbf29ce484222325;
+        let mut ok = 0u64;
+        let limit: u64 = 20_000_000;
+        loop {
+            if libc::ptrace(libc::PTRACE_SINGLESTEP, pid, 0, 0) != 0 {
+                break;
+            }
+            if libc::waitpid(pid, &mut status, 0) != pid {
+                break;
+            }
+            if libc::WIFEXITED(status) || libc::WIFSIGNALED(status) {
+                return Trace {
+                    steps,
+                    hash,
+                    ok: 0,
+                };
+            }
+            if libc::WIFSTOPPED(status) {
+                let sig = libc::WSTOPSIG(status);
+                if sig == libc::SIGSTOP {
+                    ok = 1;
+                    break;
+                }
+                if sig != libc::SIGTRAP {
+                    // unexpected signal inside the traced region
+                    break;
+                }
+            }
+            let rip = libc::ptrace(libc::PTRACE_PEEKUSER, pid, RIP_OFFSET, 0) as u64;
+            steps += 1;
+            hash ^= rip;
+            hash = hash.wrapping_mul(0x100000001b3);
+            if steps > limit {
+                break;
+            }
+        }
+        // let the child finish
+        libc::ptrace(libc::PTRACE_CONT, pid, 0, 0);
+        let mut exit_ok = false;
+        if libc::waitpid(pid, &mut status, 0) == pid && libc::WIFEXITED(status) {
+            let c = libc::WEXITSTATUS(status);
+            exit_ok = c == 10 || c == 11;
+        } else {
+            libc::kill(pid, libc::SIGKILL);
+            libc::waitpid(pid, &mut status, 0);
+        }
+        Trace {
+            steps,
+            hash,
+            ok: if ok == 1 && exit_ok {
+                1
+            } else {
+                0
+            },
+        }
+    }
+}
+
+#[derive(Clone, Debug)]
+struct Probe {
+    request: usize,
+    label: String,
+    presented: String,
+    mode: Mode,
+    /// position of the first wrong character (64 = none wrong)
+    first_wrong: usize,
+}
+
+fn same_class_other(r: &mut Rng, c: u8) -> u8 {
+    let pool: &[u8] = if c.is_ascii_digit() {
+        b"0123456789"
+    } else {
+        b"abcdef"
+    };
+    loop {
+        let n = *r.pick(pool);
+        if n != c {
+            return n;
+        }
+    }
+}
+
+struct Req {
+    label: String,
+    logical: sv::gen::Logical,
+    cfg: sv::model::Cfg,
+    sig: String,
+}
+
+fn make_requests(seed: u64, n: usize) -> Vec<Req> {
+    let shapes: [(&str, Carrier, bool, usize); 4] = [("header carrier", Carrier::Header, false, 0), ("query carrier", Carrier::Query, false, 0), ("header carrier with token", Carrier::Header, true, 0), ("header carrier, 1 KiB body", Carrier::Header, false, 1024)];
+    let mut v = Vec::new();
+    for k in 0..n {
+        let (label, carrier, token, body) = shapes[k % 4];
+        let mut r = Rng::keyed(seed, "C07", "request", k as u64, 0);
+        let mut cfg = gen_cfg(&mut r);
+        cfg.s3 = false;
+        cfg.fold = false;
+        let o = GenOpts {
+            carrier: Some(carrier),
+            token: Some(token),
+            allow_form: false,
+            max_pairs: 2,
+            max_extra_headers: 2,
+            ..Default::default()
+        };
+        let mut l = gen_logical(&mut r, &cfg, &o);
+        if body > 0 {
+            l.body = r.bytes(body);
+            l.content_type = Some(b"application/octet-stream".to_vec());
+        }
+        let present = sv::gen::present_header_names(&l);
+        l.signed.retain(|s| present.contains(s));
+        // second key for the same request shape
+        if k >= 4 {
+            l.secret = format!("{}Z", &l.secret[..l.secret.len().min(39)]);
+        }
+        let mut sr = Rng::keyed(seed, "C07", "spell", k as u64, 0);
+        let mut sp = Speller {
+            r: &mut sr,
+            level: 0,
+        };
+        let (case, facts) = make_case(&l, &cfg, &mut sp, &Overrides::default(), 0);
+        v.push(Req {
+            label: format!("{} (key {})", label, k / 4),
+            logical: l,
+            cfg: case.cfg.clone(),
+            sig: facts.sig,
+        });
+    }
+    v
+}
+
+fn case_with_sig(req: &Req, seed: u64, k: usize, presented: &str) -> Case {
+    let ov = Overrides {
+        signature: Some(presented.to_string()),
+        ..Default::default()
+    };
+    let mut sr = Rng::keyed(seed, "C07", "spell", k as u64, 0);
+    let mut sp = Speller {
+        r: &mut sr,
+        level: 0,
+    };
+    let (wire, _) = sv::gen::render(&req.logical, &req.cfg, &mut sp, &ov);
+    Case {
+        wire,
+        cfg: req.cfg.clone(),
+        script: sv::model::Script::derive(&req.logical.secret),
+    }
+}
+
+fn make_probes(seed: u64, reqs: &[Req], positions: &[usize], multi: usize) -> Vec<Probe> {
+    let mut v = Vec::new();
+    for (k, q) in reqs.iter().enumerate() {
+        let mut r = Rng::keyed(seed, "C07", "probes", k as u64, 0);
+        for &p in positions {
+            let mut s = q.sig.clone().into_bytes();
+            s[p] = same_class_other(&mut r, s[p]);
+            v.push(Probe {
+                request: k,
+                label: format!("wrong-at-{}", p),
+                presented: String::from_utf8(s).unwrap(),
+                mode: Mode::Validate,
+                first_wrong: p,
+            });
+        }
+        // all characters wrong, and random multi-position variants
+        let all: Vec<u8> = q.sig.bytes().map(|c| same_class_other(&mut r, c)).collect();
+        v.push(Probe {
+            request: k,
+            label: "all-wrong".into(),
+            presented: String::from_utf8(all).unwrap(),
+            mode: Mode::Validate,
+            first_wrong: 0,
+        });
+        for m in 0..multi {
+            let mut s = q.sig.clone().into_bytes();
+            let mut first = 64;
+            for p in 0..64 {
+                if r.chance(1, 4) {
+                    s[p] = same_class_other(&mut r, s[p]);
+                    first = first.min(p);
+                }
+            }
+            if first == 64 {
+                s[63] = same_class_other(&mut r, s[63]);
+                first = 63;
+            }
+            v.push(Probe {
+                request: k,
+                label: format!("multi-{}", m),
+                presented: String::from_utf8(s).unwrap(),
+                mode: Mode::Validate,
+                first_wrong: first,
+            });
+        }
+        // determinism control: the same probe again
+        let mut s = q.sig.clone().into_bytes();
+        s[positions[0]] = same_class_other(&mut Rng::keyed(seed, "C07", "probes", k as u64, 0), s[positions[0]]);
+        v.push(Probe {
+            request: k,
+            label: format!("repeat-wrong-at-{}", positions[0]),
+            presented: v.iter().find(|p| p.request == k && p.first_wrong == positions[0]).map(|p| p.presented.clone()).unwrap_or_else(|| String::from_utf8(s).unwrap()),
+            mode: Mode::Validate,
+            first_wrong: positions[0],
+        });
+        // the correct signature (success path; traced, excluded from the comparison)
+        v.push(Probe {
+            request: k,
+            label: "correct".into(),
+            presented: q.sig.clone(),
+            mode: Mode::Validate,
+            first_wrong: 64,
+        });
+        // sensitivity control: harness-local `==` over the same inputs
+        for p in [0usize, 31, 63] {
+            let mut s = q.sig.clone().into_bytes();
+            s[p] = same_class_other(&mut r, s[p]);
+            v.push(Probe {
+                request: k,
+                label: format!("control-eq-wrong-at-{}", p),
+                presented: String::from_utf8(s).unwrap(),
+                mode: Mode::ControlCompare,
+                first_wrong: p,
+            });
+        }
+    }
+    v
+}
+
+/// Trace all probes, `workers` worker processes in parallel (each a fork of this warmed, single-threaded process).
+fn trace_all(seed: u64, reqs: &[Req], probes: &[Probe], workers: usize) -> Vec<Trace> {
+    // warm every lazily initialised global with full validations (success and refusal)
+    for (k, q) in reqs.iter().enumerate() {
+        let ok = sv::exec::execute(&case_with_sig(q, seed, k, &q.sig));
+        let bad = sv::exec::execute(&case_with_sig(q, seed, k, &"0".repeat(64)));
+        if !ok.outcome.is_ok() || bad.outcome.is_ok() {
+            eprintln!("warm-up: unexpected outcomes {} / {}", ok.outcome.brief(), bad.outcome.brief());
+        }
+    }
+    let cases: Vec<Case> = probes.iter().map(|p| case_with_sig(&reqs[p.request], seed, p.request, &p.presented)).collect();
+    let mut results = vec![
+        Trace {
+            steps: 0,
+            hash: 0,
+            ok: 0
+        };
+        probes.len()
+    ];
+    // no allocation may happen in this process between the forks of the workers: every probe child must start
+    // from the same heap state
+    let mut pipes: Vec<(i32, i32)> = Vec::with_capacity(workers + 1);
+    let mut pids: Vec<i32> = Vec::with_capacity(workers + 1);
+    std::io::stdout().flush().ok();
+    for w in 0..workers {
+        let mut fds = [0i32; 2];
+        unsafe {
+            if libc::pipe(fds.as_mut_ptr()) != 0 {
+                continue;
+            }
+            let pid = libc::fork();
+            if pid == 0 {
+                libc::close(fds[0]);
+                let mut i = w;
+                while i < probes.len() {
+                    let t = trace_one(&cases[i], &reqs[probes[i].request].sig, &probes[i].presented, probes[i].mode);
+                    let rec: [u64; 4] = [i as u64, t.steps, t.hash, t.ok];
+                    libc::write(fds[1], rec.as_ptr() as *const libc::c_void, 32);
+                    i += workers;
+                }
+                libc::close(fds[1]);
+                libc::_exit(0);
+            }
+            libc::close(fds[1]);
+            pipes.push((fds[0], pid));
+            pids.push(pid);
+        }
+    }
+    for (fd, pid) in pipes {
+        unsafe {
+            loop {
+                let mut rec = [0u64; 4];
+                let n = libc::read(fd, rec.as_mut_ptr() as *mut libc::c_void, 32);
+                if n != 32 {
+                    break;
+                }
+                let i = rec[0] as usize;
+                if i < results.len() {
+                    results[i] = Trace {
+                        steps: rec[1],
+                        hash: rec[2],
+                        ok: rec[3],
+                    };
+                }
+            }
+            libc::close(fd);
+            let mut st = 0;
+            libc::waitpid(pid, &mut st, 0);
+        }
+    }
+    results
+}
+
+struct Summary {
+    tally: Tally,
+    controls_ok: bool,
+}
+
+fn analyse(reqs: &[Req], probes: &[Probe], traces: &[Trace], profile: &str) -> Summary {
+    let mut t = Tally::new();
+    let mut controls_ok = true;
+    for (k, q) in reqs.iter().enumerate() {
+        let mine: Vec<usize> = (0..probes.len()).filter(|i| probes[*i].request == k).collect();
+        let failed: Vec<&str> = mine.iter().filter(|i| traces[**i].ok != 1).map(|i| probes[*i].label.as_str()).collect();
+        if !failed.is_empty() {
+            t.inconclusive.push(format!("[{}] request {}: {} trace(s) did not complete ({:?}) — ptrace unavailable or child failed", profile, q.label, failed.len(), &failed[..failed.len().min(3)]));
+            controls_ok = false;
+            continue;
+        }
+        t.evaluations += mine.len() as u64;
+        // sensitivity control: harness-local `==` must be position-dependent
+        let ctl: Vec<&usize> = mine.iter().filter(|i| probes[**i].mode == Mode::ControlCompare).collect();
+        let ctl_steps: Vec<u64> = ctl.iter().map(|i| traces[**i].steps).collect();
+        if !(ctl_steps.len() == 3 && ctl_steps[0] < ctl_steps[1] && ctl_steps[1] < ctl_steps[2]) {
+            t.inconclusive.push(format!("[{}] sensitivity control failed: harness-local == gave step counts {:?} for first difference at 0/31/63 (memcmp override not effective)", profile, ctl_steps));
+            controls_ok = false;
+        } else {
+            t.count("control_early_exit_compare_is_position_dependent");
+        }
+        // determinism control
+        let rep = mine.iter().find(|i| probes[**i].label.starts_with("repeat-")).unwrap();
+        let orig = mine.iter().find(|i| probes[**i].mode == Mode::Validate && probes[**i].presented == probes[*rep].presented && *i != rep);
+        match orig {
+            Some(o) if traces[*o] == traces[*rep] => t.count("control_same_probe_same_trace"),
+            Some(o) => {
+                t.inconclusive.push(format!("[{}] determinism control failed: the same probe traced twice gave {:?} and {:?}", profile, traces[*o], traces[*rep]));
+                controls_ok = false;
+            }
+            None => {}
+        }
+        // the property: all wrong signatures of the right length and class ⇒ identical (count, hash)
+        let wrong: Vec<usize> = mine.iter().copied().filter(|i| probes[*i].mode == Mode::Validate && probes[*i].first_wrong < 64).collect();
+        let base = traces[wrong[0]];
+        let mut differing: Vec<(usize, Trace)> = Vec::new();
+        for &i in &wrong {
+            if traces[i] != base {
+                differing.push((i, traces[i]));
+            }
+            t.nontrivial(sv::prng::fnv64(format!("{}|{}|{}", profile, k, probes[i].presented).as_bytes()));
+        }
+        t.add("wrong_signature_traces_compared", wrong.len() as u64);
+        if let Some(c) = mine.iter().find(|i| probes[**i].label == "correct") {
+            t.count("success_path_traced");
+            if traces[*c] == base {
+                t.notes.push(format!("[{}] note: the success path has the same trace as a refusal for {}", profile, q.label));
+            }
+        }
+        t.sample(6, || {
+            J::obj()
+                .set("profile", J::s(profile))
+                .set("request", J::s(q.label.clone()))
+                .set("steps_of_reference_refusal", J::i(base.steps as i64))
+                .set("trace_hash", J::s(format!("{:016x}", base.hash)))
+                .set("wrong_signatures_traced", J::i(wrong.len()))
+                .set("all_identical", J::Bool(differing.is_empty()))
+                .set("control_eq_steps_for_first_difference_at_0_31_63", J::Arr(ctl_steps.iter().map(|s| J::i(*s as i64)).collect()))
+        });
+        if !differing.is_empty() && controls_ok {
+            let mut detail = format!("[{}] request {}: refusal traces differ with the position of the wrong character: reference (first wrong at {}) = {} steps; ", profile, q.label, probes[wrong[0]].first_wrong, base.steps);
+            for (i, tr) in differing.iter().take(6) {
+                detail.push_str(&format!("first wrong at {} → {} steps (hash {:016x}); ", probes[*i].first_wrong, tr.steps, tr.hash));
+            }
+            let case = case_with_sig(q, 0, k, &probes[differing[0].0].presented);
+            t.violate(Violation {
+                monitor: "instruction-trace".into(),
+                signature: format!("instruction-trace|{}", profile),
+                detail,
+                case: Some(case),
+                extra: J::Arr(wrong.iter().map(|i| J::obj().set("first_wrong", J::i(probes[*i].first_wrong)).set("steps", J::i(traces[*i].steps as i64)).set("hash", J::s(format!("{:016x}", traces[*i].hash)))).collect()),
+                known: None,
+            });
+        } else if differing.is_empty() {
+            t.count("requests_with_identical_refusal_traces");
+        }
+    }
+    Summary {
+        tally: t,
+        controls_ok,
+    }
+}
+
+fn main() {
+    let args: Vec<String> = std::env::args().collect();
+    sv::exec::install_panic_hook();
+    log::set_max_level(log::LevelFilter::Off);
+    if args.len() >= 2 && args[1] == "raw" {
+        // used by the release-profile run to repeat a subset on another build profile
+        let seed: u64 = args.get(2).and_then(|s| s.parse().ok()).unwrap_or(1);
+        let profile = args.get(3).cloned().unwrap_or_else(|| "other".into());
+        let reqs = make_requests(seed, 1);
+        let probes = make_probes(seed, &reqs, &[0, 1, 15, 31, 32, 47, 62, 63], 2);
+        let traces = trace_all(seed, &reqs, &probes, 8);
+        let s = analyse(&reqs, &probes, &traces, &profile);
+        println!(
+            "RAW profile={} compared={} identical_requests={} violations={} inconclusive={} controls_ok={}",
+            profile,
+            s.tally.get("wrong_signature_traces_compared"),
+            s.tally.get("requests_with_identical_refusal_traces"),
+            s.tally.violations.len(),
+            s.tally.inconclusive.len(),
+            s.controls_ok
+        );
+        for v in &s.tally.violations {
+            println!("RAWVIOLATION {}", v.detail);
+        }
+        for i in &s.tally.inconclusive {
+            println!("RAWINCONCLUSIVE {}", i);
+        }
+        return;
+    }
+    let tier = match args.get(2).map(|s| s.as_str()) {
+        Some("thorough") => Tier::Thorough,
+        _ => Tier::Quick,
+    };
+    let mut ctx = Ctx::new("C07", tier);
+    let seed = ctx.seed;
+    let (nreq, positions, multi): (usize, Vec<usize>, usize) = match tier {
+        Tier::Quick => (1, vec![0, 1, 2, 15, 31, 32, 47, 62, 63], 2),
+        Tier::Thorough => (8, (0..64).collect(), 16),
+    };
+    let reqs = make_requests(seed, nreq);
+    let probes = make_probes(seed, &reqs, &positions, multi);
+    let traces = trace_all(seed, &reqs, &probes, ctx.threads.max(1));
+    let s = analyse(&reqs, &probes, &traces, "release");
+    let mut tally = s.tally;
+    // thorough: repeat a subset on the `checked` build profile
+    let mut extra = J::obj();
+    if let Ok(other) = std::env::var("VERIF_C07_EXTRA") {
+        match std::process::Command::new(&other).args(["raw", &seed.to_string(), "checked"]).output() {
+            Ok(o) => {
+                let out = String::from_utf8_lossy(&o.stdout).to_string();
+                extra.put("checked_profile", J::s(out.lines().find(|l| l.starts_with("RAW ")).unwrap_or("").to_string()));
+                for l in out.lines() {
+                    if let Some(d) = l.strip_prefix("RAWVIOLATION ") {
+                        tally.violate(Violation {
+                            monitor: "instruction-trace".into(),
+                            signature: "instruction-trace|checked".into(),
+                            detail: d.to_string(),
+                            case: None,
+                            extra: J::Null,
+                            known: None,
+                        });
+                    } else if let Some(d) = l.strip_prefix("RAWINCONCLUSIVE ") {
+                        tally.inconclusive.push(d.to_string());
+                    } else if l.starts_with("RAW ") && l.contains("violations=0") && l.contains("controls_ok=true") {
+                        tally.count("checked_profile_subset_identical");
+                    }
+                }
+            }
+            Err(e) => tally.inconclusive.push(format!("checked-profile tracer could not run: {}", e)),
+        }
+    }
+    ctx.gate("requests whose refusal traces were all identical", tally.get("requests_with_identical_refusal_traces"), nreq as u64);
+    ctx.gate("wrong-signature traces compared", tally.get("wrong_signature_traces_compared"), (nreq * (positions.len() + 1 + multi)) as u64);
+    ctx.gate("sensitivity control (early-exit compare is position-dependent under the memcmp override)", tally.get("control_early_exit_compare_is_position_dependent"), nreq as u64);
+    ctx.gate("determinism control (same probe, same trace)", tally.get("control_same_probe_same_trace"), nreq as u64);
+    if tier == Tier::Thorough && std::env::var("VERIF_C07_EXTRA").is_ok() {
+        ctx.gate("subset repeated on the checked build profile", tally.get("checked_profile_subset_identical"), 1);
+    }
+    ctx.exhaustive("first-difference positions 0–63 for each traced request", tier == Tier::Thorough);
+    let rep = Report {
+        level: "exploration",
+        rule: "Instruction-trace monitor: the process warms all lazily initialised globals, then forks one child per probe; the child builds its request, raises SIGSTOP, performs the single validation call, raises SIGSTOP again; the parent single-steps the child between the two stops with ptrace and folds every instruction address into (step count, 64-bit FNV hash). All children are forks of one warmed single-threaded parent (same layout, allocator state, hash seeds); probes differ only in the signature text: first wrong character at each probed position (digit for digit, letter for letter), all characters wrong, random multi-position variants. Verdict: identical (count, hash) for all refusals of one request. Controls: same probe twice ⇒ same trace; a harness-local `==` over the same inputs must show position-dependent lengths (proves the byte-wise memcmp/bcmp override is effective). Distinct = distinct (request, wrong signature) traces compared.".into(),
+        assumptions: vec![
+            "decides the property as stated (instruction sequence), not micro-architectural timing".into(),
+            "the success path (correct signature) is traced but excluded from the comparison".into(),
+        ],
+        extra,
+    };
+    std::process::exit(finish(&ctx, tally, rep));
+}
